@@ -1,7 +1,8 @@
 (* The one-node tree of Model/Root.v with the TRANSLATED leaf routine (Gen/LeafGen.v, regenerated from
-   src/compute/leaf.rs on every run) in place of the hand model Model/Leaf.v:compute_leaf_layout.  Definitions only. *)
+   src/compute/leaf.rs on every run) in place of the hand model Model/Leaf.v:compute_leaf_layout, and with the TRANSLATED
+   compute_root_layout (Gen/RootGen.v, regenerated from src/compute/mod.rs) around it.  Definitions only. *)
 From Coq Require Import List Bool NArith.
-From TV Require Import Model.Common Model.Leaf Model.Root Gen.LeafGen.
+From TV Require Import Model.Common Model.Leaf Model.Root Gen.LeafGen Gen.RootGen.
 Import ListNotations.
 
 Section LeafGenRoot.
@@ -26,4 +27,10 @@ Section LeafGenRoot.
     | Some (output, calls) => Some (root_assemble style available_space output, calls)
     | None => None
     end.
+
+  (* the translated compute_root_layout whose perform_child_layout is the dispatch above: everything of a one-node tree
+     except TaffyView::compute_child_layout's dispatch (hand-written in Root.childless_child_layout) is translated code *)
+  Definition gen_root_gen_leaf (style : Style T) (measure : MeasureFn T) (available_space : Size (AvailableSpace T))
+    : option (Layout T * list (MeasureCall T)) :=
+    gen_compute_root_layout style (fun inputs => gen_childless_child_layout inputs style measure) available_space.
 End LeafGenRoot.
